@@ -152,24 +152,36 @@ Proof.
   replace (a <? b) with true by (symmetry; apply Z.ltb_lt; lia). reflexivity.
 Qed.
 
-Lemma cut_bounds_lin : forall o L i m1 k1 j m2 k2 from to, o_circ o = false ->
-  (cut_bounds o L (i, i + m1, k1) (j, j + m2, k2) = Some (from, to) <-> cut_lin o L i m1 j m2 from to).
+Lemma cut_lin_f_spec : forall o L i m1 j m2 from to,
+  cut_lin_f o L i m1 j m2 = Some (from, to) <-> cut_lin o L i m1 j m2 from to.
 Proof.
-  intros o L i m1 k1 j m2 k2 from to Hc. unfold cut_bounds, cut_lin. cbn [fst3 snd3 fst snd]. rewrite Hc.
+  intros o L i m1 j m2 from to. unfold cut_lin_f, cut_lin.
   destruct (o_ext o) as [x|].
   - destruct (o_full o).
     + destruct (0 <=? i - x) eqn:E1; destruct (j + m2 + x <=? L) eqn:E2; cbn [andb];
         try apply Z.leb_le in E1; try apply Z.leb_le in E2; try apply Z.leb_gt in E1; try apply Z.leb_gt in E2;
         (split; [intros H; try discriminate; inversion H; subst; lia | intros (-> & -> & H1 & H2); try lia; reflexivity]).
-    + destruct (i - x <? 0) eqn:E1; destruct (L <? j + m2 + x) eqn:E2;
-        try apply Z.ltb_lt in E1; try apply Z.ltb_lt in E2; try apply Z.ltb_ge in E1; try apply Z.ltb_ge in E2.
-      all: match goal with |- context [(?a <=? ?b) && (?c <=? ?d)] =>
-             destruct (a <=? b) eqn:E3; destruct (c <=? d) eqn:E4; cbn [andb];
-             try apply Z.leb_le in E3; try apply Z.leb_le in E4; try apply Z.leb_gt in E3; try apply Z.leb_gt in E4 end.
-      all: (split; [intros H; try discriminate; inversion H; subst; lia | intros (-> & ->); try (exfalso; lia); f_equal; f_equal; lia]).
+    + split; [intros H; inversion H; subst; auto | intros (-> & ->); reflexivity].
   - split; [intros H; inversion H; subst; auto | intros (-> & ->); reflexivity].
 Qed.
 
+Lemma cut_bounds_lin_f : forall o L ins i m1 k1 j m2 k2, o_circ o = false ->
+  cut_bounds o L ins (i, i + m1, k1) (j, j + m2, k2) = cut_lin_f o L i m1 j m2.
+Proof.
+  intros o L ins i m1 k1 j m2 k2 Hc. unfold cut_bounds, cut_lin_f. cbn [fst3 snd3 fst snd]. rewrite Hc.
+  destruct (o_ext o) as [x|]; [|reflexivity].
+  destruct (o_full o); [reflexivity|].
+  destruct (i - x <? 0) eqn:E1; destruct (L <? j + m2 + x) eqn:E2;
+    try apply Z.ltb_lt in E1; try apply Z.ltb_lt in E2; try apply Z.ltb_ge in E1; try apply Z.ltb_ge in E2.
+  all: match goal with |- context [(?a <=? ?b) && (?c <=? ?d)] =>
+         replace (a <=? b) with true by (symmetry; apply Z.leb_le; lia);
+         replace (c <=? d) with true by (symmetry; apply Z.leb_le; lia) end.
+  all: cbn [andb]; f_equal; f_equal; lia.
+Qed.
+
+Lemma cut_bounds_lin : forall o L ins i m1 k1 j m2 k2 from to, o_circ o = false ->
+  (cut_bounds o L ins (i, i + m1, k1) (j, j + m2, k2) = Some (from, to) <-> cut_lin o L i m1 j m2 from to).
+Proof. intros. rewrite cut_bounds_lin_f by auto. apply cut_lin_f_spec. Qed.
 
 Lemma cut_lin_range : forall o L i m1 j m2 from to,
   cut_lin o L i m1 j m2 from to -> ext_ok o -> 0 <= i -> 0 < m1 -> 0 < m2 -> j + m2 <= L -> 0 < j - (i + m1) ->
@@ -177,6 +189,31 @@ Lemma cut_lin_range : forall o L i m1 j m2 from to,
 Proof.
   intros o L i m1 j m2 from to Hcut Hx Hi Hm1 Hm2 Hj Hins. unfold cut_lin in Hcut. unfold ext_ok in Hx.
   destruct (o_ext o) as [x|]; [specialize (Hx x eq_refl); destruct (o_full o)|]; lia.
+Qed.
+
+Lemma segment_lin : forall t a b, segment t a b false = subseq t a b false.
+Proof. reflexivity. Qed.
+
+Lemma pair_lin_eq : forall o t fb i m1 k1 j m2 k2,
+  o_circ o = false -> ext_ok o ->
+  0 <= i -> 0 < m1 -> i + m1 <= len t -> 0 <= j -> 0 < m2 -> j + m2 <= len t ->
+  pair_amplicon o t fb (i, i + m1, k1) (j, j + m2, k2) = map Some (cell_lin o t m1 m2 fb (i, k1) (j, k2)).
+Proof.
+  intros o t fb i m1 k1 j m2 k2 Hc Hx Hi Hm1 Hil Hj Hm2 Hjl.
+  unfold pair_amplicon, cell_lin. cbn [fst3 snd3 err3 fst snd]. set (L := len t) in *.
+  replace (i <? L) with true by (symmetry; apply Z.ltb_lt; lia).
+  replace (j <? L) with true by (symmetry; apply Z.ltb_lt; lia). cbn [andb].
+  unfold insert_length. rewrite Hc. cbn [fst3 snd3 fst snd].
+  destruct (i <? j + m2) eqn:E0.
+  - destruct (length_ok o (j - (i + m1))) eqn:E1; [|reflexivity].
+    apply length_ok_spec in E1. rewrite cut_bounds_lin_f by auto.
+    destruct (cut_lin_f o L i m1 j m2) as [[from to]|] eqn:E2; [|reflexivity].
+    apply cut_lin_f_spec in E2.
+    assert (Hr := cut_lin_range _ _ _ _ _ _ _ _ E2 Hx Hi Hm1 Hm2 Hjl (proj1 E1)).
+    rewrite !segment_lin. rewrite !subseq_lin by (fold L; lia). reflexivity.
+  - apply Z.ltb_ge in E0. replace (length_ok o 0) with false by (unfold length_ok; reflexivity).
+    replace (length_ok o (j - (i + m1))) with false; [reflexivity|].
+    symmetry. unfold length_ok. replace (0 <? j - (i + m1)) with false by (symmetry; apply Z.ltb_ge; lia). reflexivity.
 Qed.
 
 Lemma pair_lin : forall o t fb i m1 k1 j m2 k2 x,
@@ -188,26 +225,15 @@ Lemma pair_lin : forall o t fb i m1 k1 j m2 k2 x,
      x = Some (mk_amp fb (slice t from to) (slice t i (i + m1)) k1 (slice t j (j + m2)) k2)).
 Proof.
   intros o t fb i m1 k1 j m2 k2 x Hc Hx Hi Hm1 Hil Hj Hm2 Hjl.
-  unfold pair_amplicon. cbn [fst3 snd3 err3 fst snd]. set (L := len t) in *.
-  replace (i <? L) with true by (symmetry; apply Z.ltb_lt; lia).
-  replace (j <? L) with true by (symmetry; apply Z.ltb_lt; lia). cbn [andb].
-  unfold insert_length. rewrite Hc. cbn [fst3 snd3 fst snd].
-  destruct (i <? j + m2) eqn:E0.
-  - destruct (length_ok o (j - (i + m1))) eqn:E1.
-    + apply length_ok_spec in E1.
-      destruct (cut_bounds o L (i, i + m1, k1) (j, j + m2, k2)) as [[from to]|] eqn:E2.
-      * pose proof E2 as Hcut. apply cut_bounds_lin in Hcut; auto.
-        assert (Hr := cut_lin_range _ _ _ _ _ _ _ _ Hcut Hx Hi Hm1 Hm2 Hjl (proj1 E1)).
-        rewrite !subseq_lin by (fold L; lia). cbn [opt3 In].
-        split.
-        -- intros [<-|[]]. split; auto. exists from, to. auto.
-        -- intros (_ & from' & to' & Hcut' & ->). left.
-           apply (cut_bounds_lin o L i m1 k1 j m2 k2) in Hcut'; auto. rewrite E2 in Hcut'. inversion Hcut'. reflexivity.
-      * split; [intros []|]. intros (_ & from & to & Hcut & _).
-        apply (cut_bounds_lin o L i m1 k1 j m2 k2) in Hcut; auto. rewrite E2 in Hcut. discriminate.
-    + split; [intros []|]. intros (Hb & _). apply length_ok_spec in Hb. congruence.
-  - apply Z.ltb_ge in E0. replace (length_ok o 0) with false by (unfold length_ok; reflexivity).
-    split; [intros []|]. intros ((Hb & _) & _). lia.
+  rewrite pair_lin_eq by auto. unfold cell_lin. cbn [fst snd].
+  destruct (length_ok o (j - (i + m1))) eqn:E1.
+  - apply length_ok_spec in E1.
+    destruct (cut_lin_f o (len t) i m1 j m2) as [[from to]|] eqn:E2.
+    + cbn [map In]. split.
+      * intros [<-|[]]. split; auto. exists from, to. split; [apply cut_lin_f_spec; auto|reflexivity].
+      * intros (_ & from' & to' & Hcut' & ->). left. apply cut_lin_f_spec in Hcut'. rewrite E2 in Hcut'. inversion Hcut'. reflexivity.
+    + split; [intros []|]. intros (_ & from & to & Hcut & _). apply cut_lin_f_spec in Hcut. rewrite E2 in Hcut. discriminate.
+  - split; [intros []|]. intros (Hb & _). apply length_ok_spec in Hb. congruence.
 Qed.
 
 (* ---------- one block on a linear template *)
@@ -230,12 +256,12 @@ Proof.
 Qed.
 
 Lemma block_lin : forall o t pf ef pr er fb x,
-  o_circ o = false -> ext_ok o -> pf <> [] -> pr <> [] -> len pr <= len (o_rev o) + MAX_PAT_LEN ->
+  o_circ o = false -> ext_ok o -> pf <> [] -> pr <> [] ->
   (In x (block o t pf ef pr er fb) <->
    exists i k1 j k2, hit pf ef t i k1 /\ hit pr er t j k2 /\
      In x (pair_amplicon o t fb (i, i + len pf, k1) (j, j + len pr, k2))).
 Proof.
-  intros o t pf ef pr er fb x Hc Hx Hpf Hpr Hlen. unfold block, block_on, fresh. rewrite Hc.
+  intros o t pf ef pr er fb x Hc Hx Hpf Hpr. unfold block, block_on, fresh. rewrite Hc.
   assert (Hdata : visible (encode_into [] t false) t false = t).
   { rewrite visible_encode. apply app_nil_r. }
   rewrite Hdata. set (L := len t).
@@ -249,7 +275,7 @@ Proof.
   - split; [intros []|]. intros (i & k1 & j & k2 & Hh1 & _). 
     assert (Hin : In (i, i + len pf, k1) []) by (apply Hfms; eauto). inversion Hin.
   - cbn zeta. set (fl := fm0 :: fms) in *.
-    set (len0 := if 0 <? o_max o then snd3 (last fl fm0) - fst3 fm0 + o_max o + len (o_rev o) else L - fst3 fm0).
+    set (len0 := if 0 <? o_max o then snd3 (last fl fm0) - fst3 fm0 + o_max o + len pr else L - fst3 fm0).
     rewrite in_flat_map. split.
     + intros (fm & Hfm & Hin). apply in_flat_map in Hin. destruct Hin as (rm & Hrm & Hin).
       apply Hfms in Hfm. destruct Hfm as (i & k1 & -> & Hh1).
@@ -277,7 +303,7 @@ Proof.
         apply hit_range in Hh0; auto. cbn. lia. }
       replace (fst3 fm0 <? 0) with false by (symmetry; apply Z.ltb_ge; lia).
       fold len0. unfold len0. rewrite Hl. cbn [snd3 fst snd].
-      fold L in Hj1, Hi1. fold L. unfold MAX_PAT_LEN in *. pose proof (len_nonneg (o_rev o)) as Hrev0.
+      fold L in Hj1, Hi1. fold L. unfold MAX_PAT_LEN in *.
       destruct (0 <? o_max o) eqn:Emax.
       * apply Z.ltb_lt in Emax.
         match goal with |- context [if ?c then _ else _] => replace c with false by (symmetry; apply Z.ltb_ge; lia) end.
@@ -308,10 +334,10 @@ Proof.
 Qed.
 
 Lemma block_lin_spec : forall o t pf ef pr er fb x,
-  o_circ o = false -> ext_ok o -> pf <> [] -> pr <> [] -> len pr <= len (o_rev o) + MAX_PAT_LEN ->
+  o_circ o = false -> ext_ok o -> pf <> [] -> pr <> [] ->
   (In x (block o t pf ef pr er fb) <-> exists a, x = Some a /\ spec_orient o t pf ef pr er fb a).
 Proof.
-  intros o t pf ef pr er fb x Hc Hx Hpf Hpr Hlen. rewrite block_lin by auto. unfold spec_orient. split.
+  intros o t pf ef pr er fb x Hc Hx Hpf Hpr. rewrite block_lin by auto. unfold spec_orient. split.
   - intros (i & k1 & j & k2 & Hh1 & Hh2 & Hin).
     destruct (hit_range _ _ _ _ _ Hpf Hh1) as (Hi0 & Hm1 & Hi1).
     destruct (hit_range _ _ _ _ _ Hpr Hh2) as (Hj0 & Hm2 & Hj1).
@@ -328,16 +354,15 @@ Qed.
 Lemma pcr_lin : forall o t, linear_ok o ->
   exists l, pcr o t = Some l /\ forall a, In a l <-> spec_pcr_lin o t a.
 Proof.
-  intros o t (Hc & Hx & Hf & Hr & Hfl). unfold pcr, pcr_on. fold (block o t (o_fwd o) (o_ef o) (rc_primer (o_rev o)) (o_er o) true). fold (block o t (o_rev o) (o_er o) (rc_primer (o_fwd o)) (o_ef o) false).
+  intros o t (Hc & Hx & Hf & Hr). unfold pcr, pcr_on. fold (block o t (o_fwd o) (o_ef o) (rc_primer (o_rev o)) (o_er o) true). fold (block o t (o_rev o) (o_er o) (rc_primer (o_fwd o)) (o_ef o) false).
   set (b1 := block o t (o_fwd o) (o_ef o) (rc_primer (o_rev o)) (o_er o) true).
   set (b2 := block o t (o_rev o) (o_er o) (rc_primer (o_fwd o)) (o_ef o) false).
   assert (H1 : forall x, In x b1 <-> exists a, x = Some a /\
              spec_orient o t (o_fwd o) (o_ef o) (rc_primer (o_rev o)) (o_er o) true a).
-  { intros x. apply block_lin_spec; auto using rc_primer_nonempty. rewrite rc_primer_len. unfold MAX_PAT_LEN. lia. }
+  { intros x. apply block_lin_spec; auto using rc_primer_nonempty. }
   assert (H2 : forall x, In x b2 <-> exists a, x = Some a /\
              spec_orient o t (o_rev o) (o_er o) (rc_primer (o_fwd o)) (o_ef o) false a).
-  { intros x. apply block_lin_spec; auto using rc_primer_nonempty. rewrite rc_primer_len.
-    pose proof (len_nonneg (o_rev o)). lia. }
+  { intros x. apply block_lin_spec; auto using rc_primer_nonempty. }
   destruct (all_some_spec (b1 ++ b2)) as (l & Hl & Heq).
   { intros Hn. apply in_app_or in Hn. destruct Hn as [Hn|Hn]; [apply H1 in Hn|apply H2 in Hn];
       destruct Hn as (a & Ha & _); discriminate. }
@@ -379,16 +404,28 @@ Proof. intros. unfold rc. now rewrite rev_length, map_length. Qed.
 Lemma rc_len : forall t, len (rc t) = len t.
 Proof. intros. unfold len. now rewrite rc_length. Qed.
 
+Lemma comp_sym_bits : forall s,
+  N.testbit (comp_sym s) 0 = N.testbit s 3 /\ N.testbit (comp_sym s) 1 = N.testbit s 2 /\
+  N.testbit (comp_sym s) 2 = N.testbit s 1 /\ N.testbit (comp_sym s) 3 = N.testbit s 0 /\
+  N.testbit (comp_sym s) 4 = N.testbit s 4 /\ N.testbit (comp_sym s) 5 = N.testbit s 5.
+Proof.
+  intros s. unfold comp_sym.
+  destruct (N.testbit s 0), (N.testbit s 1), (N.testbit s 2), (N.testbit s 3), (N.testbit s 4), (N.testbit s 5);
+    vm_compute; repeat split.
+Qed.
+
 Lemma sym_match_comp : forall s x, sym_match (comp_sym s) (comp_nuc x) = sym_match s x.
 Proof.
-  intros s x. unfold sym_match, comp_nuc. destruct (x <? 4)%N eqn:E.
-  - apply N.ltb_lt in E. replace (3 - x <? 4)%N with true by (symmetry; apply N.ltb_lt; lia). cbn [andb].
-    unfold comp_sym.
+  intros s x. destruct (comp_sym_bits s) as (B0 & B1 & B2 & B3 & B4 & B5).
+  unfold sym_match, comp_nuc. destruct (x <? 4)%N eqn:E.
+  - apply N.ltb_lt in E. replace (3 - x <? 4)%N with true by (symmetry; apply N.ltb_lt; lia).
     assert (Hx : x = 0%N \/ x = 1%N \/ x = 2%N \/ x = 3%N) by lia.
-    destruct Hx as [ -> | [ -> | [ -> | -> ] ] ];
-      destruct (N.testbit s 0), (N.testbit s 1), (N.testbit s 2), (N.testbit s 3); reflexivity.
-  - rewrite E. reflexivity.
+    destruct Hx as [ -> | [ -> | [ -> | -> ] ] ]; cbn [N.sub Pos.sub_mask Pos.pred_double Pos.double_pred_mask]; auto.
+  - rewrite E. exact B5.
 Qed.
+
+Lemma miss_comp : forall s, miss (comp_sym s) = miss s.
+Proof. intros s. unfold miss. destruct (comp_sym_bits s) as (_ & _ & _ & _ & B4 & _). now rewrite B4. Qed.
 
 (* ---------- mismatch count on an exact window *)
 
@@ -421,7 +458,7 @@ Qed.
 Lemma mm_comp : forall p w, mm (map comp_sym p) (map comp_nuc w) = mm p w.
 Proof.
   induction p as [|s p IH]; intros w; [reflexivity|]. destruct w as [|x w]; [reflexivity|].
-  cbn [map mm]. now rewrite sym_match_comp, IH.
+  cbn [map mm]. now rewrite sym_match_comp, miss_comp, IH.
 Qed.
 
 Lemma mm_rc : forall p w, length p = length w -> mm (rc_primer p) (rc w) = mm p w.
@@ -609,7 +646,7 @@ Proof.
   cbn zeta. rewrite mod_shift by auto. split; [exact Hb|].
   exists s. split.
   - destruct (o_ext o) as [x|].
-    + destruct Hs as [Hle ->]. split; [exact Hle|]. rewrite circ_rot by auto. fold R. apply circ_congr.
+    + subst s. rewrite circ_rot by auto. fold R. apply circ_congr.
       rewrite Zminus_mod_idemp_l. f_equal. lia.
     + subst s. rewrite circ_rot by auto. fold R. apply circ_congr.
       rewrite Zplus_mod_idemp_l. f_equal. lia.
@@ -761,180 +798,7 @@ Proof.
         rewrite (mod_unique_shift (f + Z.of_nat q) L (f + Z.of_nat q - L) 1) by lia. f_equal. lia.
 Qed.
 
-Lemma pair_nonempty : forall o t fb fm rm x,
-  In x (pair_amplicon o t fb fm rm) -> fst3 fm < len t /\ fst3 rm < len t.
-Proof.
-  intros o t fb fm rm x H. unfold pair_amplicon in H.
-  destruct (fst3 fm <? len t) eqn:E1; [|inversion H].
-  destruct (fst3 rm <? len t) eqn:E2; [|inversion H].
-  apply Z.ltb_lt in E1, E2. auto.
-Qed.
-
-Lemma turn_len : forall a m L, 0 < m -> m <= L -> (if (a + m - a) mod L =? 0 then L else (a + m - a) mod L) = m.
-Proof.
-  intros a m L Hm HmL. replace (a + m - a) with m by lia. destruct (Z.eq_dec m L) as [->|Hne].
-  - rewrite Z_mod_same_full. reflexivity.
-  - rewrite Z.mod_small by lia. replace (m =? 0) with false by (symmetry; apply Z.eqb_neq; lia). reflexivity.
-Qed.
-
-Definition circ_cut (o : opts) (t : list nuc) (i m1 j m2 : Z) : list nuc :=
-  let ins := (j - (i + m1)) mod len t in
-  match o_ext o with
-  | None => circ t (i + m1) ins
-  | Some x => circ t (i - x) (m1 + ins + m2 + 2 * x)
-  end.
-
-Lemma turn_len' : forall T L, 0 < T -> T <= L -> (if T mod L =? 0 then L else T mod L) = T.
-Proof.
-  intros T L HT HTL. destruct (Z.eq_dec T L) as [->|Hne].
-  - rewrite Z_mod_same_full. reflexivity.
-  - rewrite Z.mod_small by lia. replace (T =? 0) with false by (symmetry; apply Z.eqb_neq; lia). reflexivity.
-Qed.
-
-Lemma pair_circ : forall o t fb i m1 k1 j m2 k2 x,
-  o_circ o = true ->
-  (forall e, o_ext o = Some e -> 0 <= e /\ (bounds_ok o ((j - (i + m1)) mod len t) -> m1 + (j - (i + m1)) mod len t + m2 + 2 * e <= len t)) ->
-  0 <= i < len t -> 0 < m1 -> m1 <= len t -> 0 <= j < len t -> 0 < m2 -> m2 <= len t ->
-  (In x (pair_amplicon o t fb (i, i + m1, k1) (j, j + m2, k2)) <->
-   bounds_ok o ((j - (i + m1)) mod len t) /\
-   x = Some (mk_amp fb (circ_cut o t i m1 j m2) (circ t i m1) k1 (circ t j m2) k2)).
-Proof.
-  intros o t fb i m1 k1 j m2 k2 x Hc He Hi Hm1 Hm1L Hj Hm2 Hm2L.
-  unfold pair_amplicon. cbn [fst3 snd3 err3 fst snd]. set (L := len t) in *.
-  replace (i <? L) with true by (symmetry; apply Z.ltb_lt; lia).
-  replace (j <? L) with true by (symmetry; apply Z.ltb_lt; lia). cbn [andb].
-  unfold insert_length, cut_bounds, circ_cut. rewrite Hc. cbn [fst3 snd3 fst snd]. fold L.
-  set (ins := (j - (i + m1)) mod L) in *.
-  destruct (length_ok o ins) eqn:E1.
-  - apply length_ok_spec in E1. pose proof E1 as (Hins & _).
-    destruct (o_ext o) as [e|] eqn:Eext.
-    + destruct (He e eq_refl) as (He0 & HT). specialize (HT E1).
-      assert (HL : 0 < L) by lia.
-      assert (Hfrom : 0 <= (i - e) mod L < L) by (apply Z.mod_pos_bound; lia).
-      rewrite !subseq_circ by (fold L; lia). fold L.
-      assert (Hn : (j + m2 + e - (i - e) mod L) mod L = (m1 + ins + m2 + 2 * e) mod L).
-      { rewrite Zminus_mod_idemp_r. unfold ins.
-        replace (m1 + (j - (i + m1)) mod L + m2 + 2 * e) with ((j - (i + m1)) mod L + (m1 + m2 + 2 * e)) by lia.
-        rewrite Zplus_mod_idemp_l. f_equal. lia. }
-      rewrite Hn. rewrite turn_len' by lia. rewrite !turn_len by lia. rewrite circ_mod. cbn [opt3 In].
-      split; [intros [<-|[]]; auto|intros (_ & ->); auto].
-    + rewrite !subseq_circ by (fold L; lia). fold L. fold ins.
-      replace (ins =? 0) with false by (symmetry; apply Z.eqb_neq; lia).
-      rewrite !turn_len by lia. cbn [opt3 In].
-      split; [intros [<-|[]]; auto|intros (_ & ->); auto].
-  - split; [intros []|]. intros (Hb & _). apply length_ok_spec in Hb. congruence.
-Qed.
-
-Lemma block_circ : forall o t pf ef pr er fb x,
-  o_circ o = true ->
-  (forall e, o_ext o = Some e -> 0 <= e /\ 0 < o_max o /\ len pf + o_max o + len pr + 2 * e <= len t) ->
-  pf <> [] -> pr <> [] ->
-  len pf <= 64 -> len pr <= 64 -> len pf <= len t -> len pr <= len t ->
-  (In x (block o t pf ef pr er fb) <-> exists a, x = Some a /\ spec_orient_circ o t pf ef pr er fb a).
-Proof.
-  intros o t pf ef pr er fb x Hc He Hpf Hpr Hf64 Hr64 HfL HrL.
-  assert (Hm1 : 0 < len pf) by (destruct pf; [congruence|unfold len; cbn [length]; lia]).
-  assert (Hm2 : 0 < len pr) by (destruct pr; [congruence|unfold len; cbn [length]; lia]).
-  assert (HL : 0 < len t) by lia.
-  unfold block, block_on, fresh. rewrite Hc. rewrite visible_encode. fold (cdata t). set (L := len t) in *.
-  assert (Hfa : forall p e b l m, p <> [] -> (b = 0 /\ (l = -1 \/ l = L + MAX_PAT_LEN)) ->
-            (In m (find_all p e (cdata t) L b l) <-> exists i k, m = (i, i + len p, k) /\ hit p e (cdata t) i k)).
-  { intros p e b l m Hp (-> & Hl). rewrite find_all_in by auto. cbn [Z.ltb Z.compare].
-    split; [intros (i & k & -> & Hh & _); eauto|].
-    intros (i & k & -> & Hh). exists i, k. split; [reflexivity|]. split; [exact Hh|].
-    destruct Hh as ((H0 & H1 & _) & _). rewrite cdata_len in *. fold L in H1 |- *. unfold MAX_PAT_LEN in *.
-    destruct Hl as [->| ->]; cbn [Z.ltb Z.compare].
-    - split; [lia|]. apply Z.min_glb; lia.
-    - replace (L + 64 <? 0) with false by (symmetry; apply Z.ltb_ge; lia). split; [lia|]. apply Z.min_glb; lia. }
-  assert (Hfit : forall i j e, o_ext o = Some e ->
-            0 <= e /\ (bounds_ok o ((j - (i + len pf)) mod L) -> len pf + (j - (i + len pf)) mod L + len pr + 2 * e <= L)).
-  { intros i j e Hext. destruct (He e Hext) as (H0 & Hmax & Hle). split; [auto|]. intros (_ & _ & [Hm|Hm]); lia. }
-  assert (Hspec : forall a, spec_orient_circ o t pf ef pr er fb a <->
-            exists i k1 j k2, chit pf ef t i k1 /\ chit pr er t j k2 /\ bounds_ok o ((j - (i + len pf)) mod L) /\
-              a = mk_amp fb (circ_cut o t i (len pf) j (len pr)) (circ t i (len pf)) k1 (circ t j (len pr)) k2).
-  { intros a. unfold spec_orient_circ, circ_cut. fold L. split.
-    - intros (i & k1 & j & k2 & H1 & H2 & Hb & s & Hs & ->). exists i, k1, j, k2.
-      split; auto. split; auto. split; auto.
-      destruct (o_ext o) as [e|]; [destruct Hs as (_ & ->)|subst s]; reflexivity.
-    - intros (i & k1 & j & k2 & H1 & H2 & Hb & ->). exists i, k1, j, k2. split; auto. split; auto. split; auto.
-      eexists. split; [|reflexivity].
-      destruct (o_ext o) as [e|] eqn:Eext; [|reflexivity]. split; [|reflexivity].
-      apply (Hfit i j e eq_refl). exact Hb. }
-  destruct (find_all pf ef (cdata t) L 0 (-1)) as [|fm0 fms] eqn:Efms.
-  - split; [intros []|]. intros (a & -> & Ha). apply Hspec in Ha. destruct Ha as (i & k1 & j & k2 & H1 & _).
-    assert (Hin : In (i, i + len pf, k1) (find_all pf ef (cdata t) L 0 (-1))).
-    { apply Hfa; auto. exists i, k1. split; auto. apply hit_cdata; auto. destruct H1 as ((_ & ?) & _). auto. }
-    rewrite Efms in Hin. inversion Hin.
-  - rewrite <- Efms. clear Efms fm0 fms. cbn zeta. rewrite in_flat_map. split.
-    + intros (fm & Hfm & Hin). apply in_flat_map in Hin. destruct Hin as (rm & Hrm & Hin).
-      apply Hfa in Hfm; auto. apply Hfa in Hrm; auto.
-      destruct Hfm as (i & k1 & -> & Hh1). destruct Hrm as (j & k2 & -> & Hh2).
-      destruct (pair_nonempty _ _ _ _ _ _ Hin) as (HiL & HjL). cbn [fst3 fst] in HiL, HjL.
-      apply hit_cdata in Hh1; auto. apply hit_cdata in Hh2; auto.
-      pose proof Hh1 as (Hi & _). pose proof Hh2 as (Hj & _).
-      apply (pair_circ o t fb i (len pf) k1 j (len pr) k2 _ Hc (Hfit i j)) in Hin; auto. destruct Hin as (Hb & ->).
-      eexists. split; [reflexivity|]. apply Hspec. exists i, k1, j, k2. auto.
-    + intros (a & -> & Ha). apply Hspec in Ha. destruct Ha as (i & k1 & j & k2 & H1 & H2 & Hb & ->).
-      pose proof H1 as (Hi & _). pose proof H2 as (Hj & _).
-      exists (i, i + len pf, k1). split.
-      { apply Hfa; auto. exists i, k1. split; auto. apply hit_cdata; auto. lia. }
-      apply in_flat_map. exists (j, j + len pr, k2). split.
-      { apply Hfa; auto. exists j, k2. split; auto. apply hit_cdata; auto. lia. }
-      apply (pair_circ o t fb i (len pf) k1 j (len pr) k2 _ Hc (Hfit i j)); auto.
-Qed.
-
-
-Lemma pcr_circ : forall o t, circular_ok o t ->
-  exists l, pcr o t = Some l /\ forall a, In a l <-> spec_pcr_circ o t a.
-Proof.
-  intros o t (Hc & He & Hf & Hr & Hf64 & Hr64 & HfL & HrL). unfold flank_fits in He. unfold pcr, pcr_on. fold (block o t (o_fwd o) (o_ef o) (rc_primer (o_rev o)) (o_er o) true). fold (block o t (o_rev o) (o_er o) (rc_primer (o_fwd o)) (o_ef o) false). unfold MAX_PAT_LEN in *.
-  set (b1 := block o t (o_fwd o) (o_ef o) (rc_primer (o_rev o)) (o_er o) true).
-  set (b2 := block o t (o_rev o) (o_er o) (rc_primer (o_fwd o)) (o_ef o) false).
-  assert (H1 : forall x, In x b1 <-> exists a, x = Some a /\
-             spec_orient_circ o t (o_fwd o) (o_ef o) (rc_primer (o_rev o)) (o_er o) true a).
-  { intros x. apply block_circ; auto using rc_primer_nonempty; rewrite ?rc_primer_len; try lia.
-    intros e Hext. rewrite Hext in He. lia. }
-  assert (H2 : forall x, In x b2 <-> exists a, x = Some a /\
-             spec_orient_circ o t (o_rev o) (o_er o) (rc_primer (o_fwd o)) (o_ef o) false a).
-  { intros x. apply block_circ; auto using rc_primer_nonempty; rewrite ?rc_primer_len; try lia.
-    intros e Hext. rewrite Hext in He. lia. }
-  destruct (all_some_spec (b1 ++ b2)) as (l & Hl & Heq).
-  { intros Hn. apply in_app_or in Hn. destruct Hn as [Hn|Hn]; [apply H1 in Hn|apply H2 in Hn];
-      destruct Hn as (a & Ha & _); discriminate. }
-  exists l. split; [exact Hl|]. intros a. unfold spec_pcr_circ.
-  assert (Hin : In a l <-> In (Some a) (b1 ++ b2)).
-  { rewrite Heq. rewrite in_map_iff. split; [intros H; exists a; auto|]. intros (a' & Ha & Hin). inversion Ha; subst; auto. }
-  rewrite Hin, in_app_iff, H1, H2. split.
-  - intros [(a' & Ha & Hs)|(a' & Ha & Hs)]; inversion Ha; subst; auto.
-  - intros [Hs|Hs]; [left|right]; eauto.
-Qed.
-
-Lemma pcr_circ_total : forall o t, circular_ok o t -> pcr o t <> None.
-Proof. intros o t H. destruct (pcr_circ o t H) as (l & Hl & _). congruence. Qed.
-
-Lemma pcr_circ_sound : forall o t l a, circular_ok o t -> pcr o t = Some l -> In a l -> spec_pcr_circ o t a.
-Proof. intros o t l a H Hl Ha. destruct (pcr_circ o t H) as (l' & Hl' & Hs). rewrite Hl in Hl'. inversion Hl'; subst. apply Hs, Ha. Qed.
-
-Lemma pcr_circ_complete : forall o t a, circular_ok o t -> spec_pcr_circ o t a -> exists l, pcr o t = Some l /\ In a l.
-Proof. intros o t a H Ha. destruct (pcr_circ o t H) as (l & Hl & Hs). exists l. split; auto. apply Hs, Ha. Qed.
-
-Lemma circular_ok_rot : forall o t r, (r <= length t)%nat -> circular_ok o t -> circular_ok o (rot r t).
-Proof.
-  intros o t r Hr (H1 & H2 & H3 & H4 & H5 & H6 & H7 & H8).
-  assert (Hlen : len (rot r t) = len t) by (unfold len; now rewrite rot_length).
-  unfold circular_ok, flank_fits in *. rewrite Hlen. repeat split; auto.
-Qed.
-
-Lemma pcr_rotation : forall o t r l l' a, (r <= length t)%nat -> circular_ok o t ->
-  pcr o t = Some l -> pcr o (rot r t) = Some l' -> (In a l' <-> In a l).
-Proof.
-  intros o t r l l' a Hr Hok Hl Hl'.
-  destruct (pcr_circ o t Hok) as (l1 & E1 & S1).
-  destruct (pcr_circ o (rot r t) (circular_ok_rot o t r Hr Hok)) as (l2 & E2 & S2).
-  rewrite Hl in E1. rewrite Hl' in E2. inversion E1; inversion E2; subst.
-  rewrite S1, S2. apply rotation_invariant; auto.
-Qed.
-
+(* CIRCPART *)
 (* ====================== batches: the recycled C buffer ====================== *)
 Lemma pcr_slice_from_spec : forall o ts buf, pcr_slice_from o buf ts = map (pcr o) ts.
 Proof.
@@ -1014,9 +878,9 @@ Proof.
   assert (Hrm : circ (rc t) j (len pb) = rc (circ t ((- j - len pb) mod L) (len pb))).
   { rewrite circ_rc by (fold L; lia). f_equal. unfold L. now rewrite circ_mod. }
   destruct (o_ext o) as [x|] eqn:Eext.
-  - destruct Hs as (HT & ->). specialize (Hx x eq_refl).
+  - subst s. specialize (Hx x eq_refl).
     exists (circ t ((- j - len pb) mod L - x) (len pb + ins + len pa + 2 * x)). split.
-    + split; [lia|reflexivity].
+    + reflexivity.
     + rewrite Hfm, Hrm. rewrite circ_rc by (fold L; lia).
       replace (len pa + ins + len pb + 2 * x) with (len pb + ins + len pa + 2 * x) by lia.
       assert (Hc : circ t (- (i - x) - (len pb + ins + len pa + 2 * x)) (len pb + ins + len pa + 2 * x)
@@ -1044,30 +908,3 @@ Proof.
   rewrite <- (rc_invol t) in H. apply strand_symmetry_circ_1 in H; auto. now rewrite flip_invol in H.
 Qed.
 
-Lemma circular_ok_rc : forall o t, circular_ok o t -> circular_ok o (rc t).
-Proof. intros o t H. unfold circular_ok, flank_fits in *. rewrite rc_len. exact H. Qed.
-
-Lemma circular_ok_ext : forall o t, circular_ok o t -> ext_ok o.
-Proof.
-  intros o t (_ & Hf & _) x Hx. unfold flank_fits in Hf. rewrite Hx in Hf. tauto.
-Qed.
-
-Lemma pcr_strand_symmetry_circ : forall o t l l' a, circular_ok o t ->
-  pcr o t = Some l -> pcr o (rc t) = Some l' -> (In a l' <-> In (flip a) l).
-Proof.
-  intros o t l l' a Hok Hl Hl'.
-  destruct (pcr_circ o t Hok) as (l1 & E1 & S1). destruct (pcr_circ o (rc t) (circular_ok_rc o t Hok)) as (l2 & E2 & S2).
-  rewrite Hl in E1. rewrite Hl' in E2. inversion E1; inversion E2; subst.
-  rewrite S1, S2. apply strand_symmetry_circ. eapply circular_ok_ext; eauto.
-Qed.
-
-(* ====================== known finding: flanked amplicon longer than the circle ====================== *)
-Lemma overlong_flank_refuted :
-  exists o t l, o_circ o = true /\ o_ext o = Some 10 /\ pcr o t = Some l /\
-    exists s f kf r kr, In (s, true, f, kf, r, kr) l /\ len s < len f + len r + 2 * 10.
-Proof.
-  exists (mko [1;2;4;8]%N [4;4;2;2]%N 0 0 0 0 (Some 10) false true),
-         ([0;1;2;3] ++ repeat 0 15 ++ [2;2;1;1] ++ repeat 3 7)%N.
-  eexists. split; [reflexivity|]. split; [reflexivity|]. split; [vm_compute; reflexivity|].
-  do 5 eexists. split; [left; reflexivity|]. vm_compute. reflexivity.
-Qed.
